@@ -3,7 +3,7 @@ from collections import Counter
 
 from ..backends import BACKENDS, Store
 from ..gen import canon, floor_ms, mk_event, rand_grid
-from ._st import obs
+from ._st import obs, raw_uids, raw_view
 
 ID = "C02"
 LEVEL = "exploration"
@@ -15,7 +15,9 @@ RULE = ("operation histories (5-40 ops quick, up to 200 thorough) over 1-3 bucke
         "that never existed); timestamps from a pool of 6 instants and end instants from a pool (ties, nesting, "
         "zero-length, decreasing order, delete-then-upsert, delete-max-id-then-insert); after EVERY operation the "
         "whole observable state of every bucket (listing multiset + order, limit-1, lookup of every id ever seen, "
-        "count) is compared with a dict model; non-trivial = contains a replace_last and a timestamp/end tie or "
+        "count) is compared with a dict model (in a third of the cases 'quiet': per-op comparison through the writer "
+        "connection's own uncommitted view by uid, full API comparison once at the end - an API read commits on the lazy "
+        "store); non-trivial = contains a replace_last and a timestamp/end tie or "
         "nesting; signature = (backend, set of op kinds, tie-ts, tie-end, nested, zero-len, multi-bucket, length class)")
 ASSUMPTIONS = ["where timestamps tie the model takes the observed limit-1 answer as 'the newest' and holds replace_last to it",
                "return values of delete/replace are not part of the statement and are not judged"]
@@ -72,7 +74,7 @@ def gen_case(rng, ctx):
             ops.append(dict(op="delete", b=b, pick=rng.choice([rng.randrange(100), -1, -1])))   # -1: the max id
         else:
             ops.append(dict(op="delete_missing", b=b))
-    return dict(backend=backend, nb=nb, ops=ops)
+    return dict(backend=backend, nb=nb, ops=ops, quiet=rng.random() < 0.35)
 
 
 # ------------------------------------------------------------------ model + comparison
@@ -121,13 +123,23 @@ def compare(ds, model, ever, viols, where, ctx):
         ctx.count("state_comparisons")
 
 
-def learn_ids(b, m, ever, new_specs, viols, where):
-    """ids of bulk-inserted events, recovered through their uid"""
+class _Row:
+    def __init__(self, i):
+        self.id = i
+
+
+def learn_ids(b, m, ever, new_specs, viols, where, st=None):
+    """ids of bulk-inserted events, recovered through their uid (quiet mode: from the writer's own view)"""
     if not new_specs:
         return
     by_uid = {}
-    for e in b.get(-1):
-        by_uid.setdefault(e.data.get("uid"), []).append(e)
+    if st is not None:
+        for (bid, uid), i in raw_view(st)[1].items():
+            if bid == b.bucket_id:
+                by_uid.setdefault(uid, []).append(_Row(i))
+    else:
+        for e in b.get(-1):
+            by_uid.setdefault(e.data.get("uid"), []).append(e)
     for s in new_specs:
         g = by_uid.get(s["data"]["uid"], [])
         if len(g) != 1:
@@ -148,6 +160,8 @@ def run_case(case, ctx):
     kinds = set()
     with Store(backend, ctx.tmp) as st:
         ds = st.ds
+        quiet = bool(case.get("quiet")) and backend != "memory"
+        qst = st if quiet else None
         bids = [f"bucket-{i}" for i in range(case["nb"])]
         for bid in bids:
             ds.create_bucket(bid, type="t", client="c", hostname="h")
@@ -171,7 +185,7 @@ def run_case(case, ctx):
                 ever[bid].add(r.id)
             elif kind == "bulk":
                 b.insert([mk_event(s) for s in op["evs"]])
-                learn_ids(b, m, ever[bid], op["evs"], viols, where)
+                learn_ids(b, m, ever[bid], op["evs"], viols, where, qst)
             elif kind == "upsert":
                 evs, fresh, used = [], [], set()
                 for it in op["items"]:
@@ -187,7 +201,7 @@ def run_case(case, ctx):
                         fresh.append(it["ev"])
                     evs.append(e)
                 b.insert(evs)
-                learn_ids(b, m, ever[bid], fresh, viols, where)
+                learn_ids(b, m, ever[bid], fresh, viols, where, qst)
             elif kind == "replace":
                 if not live:
                     continue
@@ -219,7 +233,17 @@ def run_case(case, ctx):
                 ever[bid].add(missing_id)
             kinds.add(kind)
             ctx.count(f"ops.{backend}")
-            compare(ds, model, ever, viols, where, ctx)
+            if quiet:
+                # no API read (it would commit what the operation left pending): the writer's own view, by uid
+                got = raw_uids(raw_view(st)[0])
+                want = {b_: {__import__("json").loads(t[2]).get("uid") for t in mm.values()} for b_, mm in model.items()}
+                ctx.count("quiet_comparisons")
+                if got != want:
+                    bad = next(b_ for b_ in want if got.get(b_) != want[b_])
+                    viols.append(("pending-state-differs-in-the-writers-view",
+                                  f"{where} bucket={bad} model_uids={sorted(want[bad])} got_uids={sorted(got.get(bad, []))}"))
+            else:
+                compare(ds, model, ever, viols, where, ctx)
             if viols:
                 break
             vals = list(m.values())
@@ -233,6 +257,8 @@ def run_case(case, ctx):
                 flags.add("zero-len")
             if any(a[0] < c[0] and c[0] + c[1] < a[0] + a[1] for a in vals for c in vals):
                 flags.add("nested")
+        if quiet and not viols:
+            compare(ds, model, ever, viols, "at the end of a quiet history", ctx)
     viols = [(f"{backend}:{k}", d) for k, d in viols]
     if case["nb"] > 1:
         flags.add("multi-bucket")
